@@ -39,10 +39,10 @@ META = {
 # ---- L1 tables -------------------------------------------------------------
 def py_atoms(tier):
     if tier == "quick":
-        pv, pfv = ["3", "3.8", "3.10"], ["3.8", "3.8.2", "3.10", "3.9a1"]
+        pv, pfv = ["3", "3.8", "3.10", "3.8.1"], ["3.8", "3.8.2", "3.10", "3.9a1"]
         lists = ["3.8, 3.10", "2.7,3.10"]
     else:
-        pv, pfv = ["3", "2", "3.8", "3.9", "3.10", "2.7", "3.0"], ["3.8", "3.9", "3.8.0", "3.8.2", "3.9.0", "3.10.1", "2.7.18", "3.10", "3.9a1", "3.10.0rc1"]
+        pv, pfv = ["3", "2", "3.8", "3.9", "3.10", "2.7", "3.0", "3.8.1", "3.8.0", "3.10.2"], ["3.8", "3.9", "3.8.0", "3.8.2", "3.9.0", "3.10.1", "2.7.18", "3.10", "3.9a1", "3.10.0rc1"]
         lists = ["3.8", "3.8,3.9", "3.8, 3.10", "2.7,3.10", "3.10, 3.11, 3.12"]
     out = []
     for var, vals in (("python_version", pv), ("python_full_version", pfv)):
